@@ -974,6 +974,35 @@ func ruleV8(c *Ctx, id string) {
 						why, _ = byFuncS(panicJustified, first)
 					}
 				}
+				if !ok {
+					// the panic moved up: a private helper that carried it now reports the condition (an error value, a
+					// flag) and its caller panics with the same message
+					for _, g := range samePkgCallees(fn) {
+						if !isPrivateHelper(g) {
+							continue
+						}
+						k2 := FuncName(g) + "|" + msg
+						w2, ok2 := byFuncS(panicJustified, k2)
+						if !ok2 {
+							continue
+						}
+						still := false
+						for _, gb := range g.Blocks {
+							for _, gi := range gb.Instrs {
+								if gp, isP := gi.(*ssa.Panic); isP {
+									if mi, isMI := gp.X.(*ssa.MakeInterface); isMI {
+										if cst, isC := mi.X.(*ssa.Const); isC && cst.Value != nil && cst.Value.Kind() == constant.String && constant.StringVal(cst.Value) == msg {
+											still = true
+										}
+									}
+								}
+							}
+						}
+						if !still {
+							key, why, ok = k2, w2, true
+						}
+					}
+				}
 				R.Check(ok, id, key, P.Pos(pn.Pos()), "an explicit panic reachable from a handler has a recorded invariant that excludes it", why, "new explicit panic reachable from a request handler: one request can kill the whole server process")
 			}
 		}
